@@ -288,6 +288,351 @@ def run(chk, w):
                 chk.violation("C02-BND", asm.name, base[1], gep.loc(), "access to the %d-byte packet buffer '%s' is not bounded: %s" % (base[2], base[1], detail))
     chk.rule("C02-PROG", "every iteration of the split loop advances the read position by at least one byte")
     _progress(chk, w, E, split)
+    state_rule(chk, asm, [i for (f, i) in readers if f is asm], cmps, MAGIC)
+    term_rule(chk, w, D, split)
+
+
+def _index_plus(f, o):
+    """operand = (load of an integer local) + constant (through casts) -> (alloca id, constant)"""
+    k = 0
+    for _ in range(8):
+        if o.get("k") != "inst":
+            return None
+        i = f.insts[o["id"]]
+        if i.op in ("zext", "sext", "trunc"):
+            o = i["a"]
+        elif i.op in ("add", "sub"):
+            c = rules.const_of(f, i["b"])
+            if c is None:
+                return None
+            k += c if i.op == "add" else -c
+            o = i["a"]
+        elif i.op == "load":
+            p_ = i["ptr"]
+            if p_.get("k") == "inst" and f.insts[p_["id"]].op == "alloca" and str(f.insts[p_["id"]].get("aty", "")).startswith("i"):
+                return p_["id"], k, i.id
+            return None
+        else:
+            return None
+    return None
+
+
+def _msg_elem(f, o, mparam):
+    """operand is a load of message[index + c] (message = pointer parameter mparam) -> (index alloca id, c)"""
+    if o.get("k") != "inst":
+        return None
+    i = f.insts[o["id"]]
+    for _ in range(4):
+        if i.op in ("zext", "sext", "trunc"):
+            if i["a"].get("k") != "inst":
+                return None
+            i = f.insts[i["a"]["id"]]
+    if i.op != "load":
+        return None
+    g = f.resolve(i["ptr"])
+    if g is None or g.op != "getelementptr" or not g["idx"]:
+        return None
+    src = rules.load_source(f, g["base"])
+    if not src or src[0] != "alloca" or f.param_index_of_alloca(f.insts[src[1]]) != mparam:
+        return None
+    ix = g["idx"][-1]
+    if len(g["idx"]) != 1 or ix.get("scale") != 1:
+        return None
+    ip = _index_plus(f, ix["v"])
+    return (ip[0], ip[1] + (g.get("off") or 0), ip[2]) if ip else None
+
+
+def term_rule(chk, w, D, split):
+    """TERM: the field extractors locate sequence number, type and data relative to the 0x00 that ends the address stack.  Every value an
+    extractor returns is computed from a scan index for which `message[index] == 0` was established on every path since the index last
+    changed (forward must-analysis of the index's offset from the terminator), and the offsets are the protocol's: seq +1, type +2, data +3."""
+    P = w.P
+    chk.rule("C02-TERM", "each field extractor derives its result from the position of the address stack's terminating 0x00 (established on every path), "
+                         "at the offsets of the wire layout: sequence number +1, type +2, first data byte +3")
+    # role of the type extractor: its result is the dispatcher's type argument
+    type_fns = set()
+    for c in split.calls(D.fn.name):
+        if D.tparam < len(c.args):
+            o = rules.resolve_local(split, rules.strip_casts(split, c.args[D.tparam]))
+            ci = split.resolve(o) if o.get("k") == "inst" else None
+            if ci is not None and ci.op == "call" and ci.callee in P.functions:
+                type_fns.add(ci.callee)
+    n = 0
+    byte_offsets = {}
+    for f in P.repo_functions():
+        if not f.blocks or not f.relfile.startswith("src/transmission/") or f.ret == "void":
+            continue
+        # terminator tests: message[i + 0] ==/!= 0 with message a pointer parameter
+        tests = []
+        for i in f.all_insts():
+            if i.op == "icmp" and i["pred"] in ("eq", "ne") and rules.const_of(f, i["b"]) == 0:
+                for mp in range(len(f.params)):
+                    if f.params[mp]["type"] != "i8*":
+                        continue
+                    e = _msg_elem(f, i["a"], mp)
+                    if e and e[1] == 0:
+                        tests.append((i, e[0], mp))
+        if not tests:
+            continue
+        idx = tests[0][1]
+        mp = tests[0][2]
+        if any(t[1] != idx for t in tests):
+            continue
+        # establishing edges
+        est = set()
+        for b in f.blocks:
+            t = b.term
+            if t.op == "br" and "cond" in t.d and t["t"] != t.get("f"):
+                for (ti, _, _) in tests:
+                    for truth in (True, False):
+                        if _is_cmp(f, t["cond"], ti, truth):
+                            est.add((b.id, t["t"] if truth else t["f"]))
+        # forward must-analysis: offset of the index from the terminator (None = unknown)
+        TOP = "?"
+        inn = {b.id: None for b in f.blocks}         # None = unreached
+        inn[f.blocks[0].id] = TOP
+        out_edge = {}
+        results = []
+        changed = True
+        rounds = 0
+        load_state = {}
+        def flow_block(b, st, collect):
+            for x in b.insts:
+                if collect and x.op == "load" and x["ptr"].get("k") == "inst" and x["ptr"]["id"] == idx:
+                    load_state[x.id] = st
+                if x.op == "store" and x["ptr"].get("k") == "inst":
+                    if x["ptr"]["id"] == idx:
+                        ip = _index_plus(f, x["val"])
+                        st = st + ip[1] if (ip and ip[0] == idx and st != TOP) else TOP
+                    elif collect and retcell is not None and x["ptr"]["id"] == retcell:
+                        results.append((x, x["val"], st))
+                elif collect and x.op == "ret" and "val" in x.d and retcell is None:
+                    results.append((x, x["val"], st))
+            return st
+        retcell = None
+        for r in f.all_insts():
+            if r.op == "ret" and "val" in r.d:
+                src = rules.load_source(f, r["val"])
+                if src and src[0] == "alloca" and f.param_index_of_alloca(f.insts[src[1]]) is None and src[1] != idx:
+                    retcell = src[1]
+        while changed and rounds < 50:
+            changed = False
+            rounds += 1
+            for b in f.blocks:
+                if inn[b.id] is None:
+                    continue
+                st = flow_block(b, inn[b.id], False)
+                for s_ in b.succ:
+                    v = 0 if (b.id, s_) in est else st
+                    old = inn[s_]
+                    new = v if old is None else (old if old == v else TOP)
+                    if new != old:
+                        inn[s_] = new
+                        changed = True
+        for b in f.blocks:
+            if inn[b.id] is not None:
+                flow_block(b, inn[b.id], True)
+        def leaves(o, depth=0):
+            """alternatives of a result value: through phi / select and locals that are assigned once"""
+            if depth > 6 or o.get("k") != "inst":
+                return [o]
+            o = rules.resolve_local(f, o)
+            if o.get("k") != "inst":
+                return [o]
+            i_ = f.insts[o["id"]]
+            if i_.op == "phi":
+                return [l for (_, v) in i_["incoming"] for l in leaves(v, depth + 1)]
+            if i_.op == "select":
+                return leaves(i_["a"], depth + 1) + leaves(i_["b"], depth + 1)
+            if i_.op in ("zext", "sext", "trunc") and _index_plus(f, o) is None and _msg_elem(f, o, mp) is None:
+                return leaves(i_["a"], depth + 1)
+            return [o]
+        results = [(x, l, st) for (x, val, st) in results for l in leaves(val)]
+        for (x, val, st) in results:
+            if rules.const_of(f, val) is not None:
+                continue
+            ip = _index_plus(f, val)
+            me = _msg_elem(f, val, mp)
+            if ip and ip[0] == idx:
+                kind, off, st = "position", ip[1], load_state.get(ip[2], TOP)
+            elif me and me[0] == idx:
+                kind, off, st = "byte", me[1], load_state.get(me[2], TOP)
+            else:
+                continue
+            n += 1
+            if st == TOP:
+                chk.violation("C02-TERM", f.name, "unterminated:%s" % kind, x.loc(),
+                              "%s returns a %s computed from the scan index although the address stack's terminating 0x00 was not found at that index on every path "
+                              "(a bound on the scan ends it elsewhere): seq/type/data are read at the wrong offset for some address depth" % (f.name, "position" if kind == "position" else "message byte"))
+                continue
+            rel = st + off
+            if kind == "position":
+                if rel == 3:
+                    chk.ok("C02-TERM", 1, {"function": f.name, "returns": "terminator+3 (first data byte)"})
+                else:
+                    chk.violation("C02-TERM", f.name, "offset:position", x.loc(), "%s returns terminator%+d as the first data byte index; the wire layout puts it at terminator+3" % (f.name, rel))
+            else:
+                byte_offsets.setdefault(f.name, []).append((rel, x))
+    for fn_, lst in sorted(byte_offsets.items()):
+        for rel, x in lst:
+            want = 2 if fn_ in type_fns else (1 if type_fns else None)
+            if want is None:
+                chk.abstain("C02-TERM", "type extractor not identified through the dispatcher call", fn_)
+            elif rel == want:
+                chk.ok("C02-TERM", 1, {"function": fn_, "returns": "message[terminator+%d] (%s)" % (rel, "type" if want == 2 else "sequence number")})
+            else:
+                chk.violation("C02-TERM", fn_, "offset:byte", x.loc(), "%s returns message[terminator%+d]; the wire layout puts the %s at terminator+%d" % (fn_, rel, "type" if want == 2 else "sequence number", want))
+    chk.floor("extractor_results", n, 3)
+
+
+def state_rule(chk, asm, polls, cmps, MAGIC):
+    """STATE: the framing state is per packet.  Every byte poll that follows a delimiter (the next packet starts there) finds each
+    loop-carried scalar local of the assembly function (write index, escape flag, CRC accumulator, oversize flag ...) holding the constant it
+    was initialised with.  Decided by exploring the function over abstract values of exactly those locals (constant / known non-zero /
+    overwritten), so that `index == 0` on an edge selects the states in which nothing was accumulated."""
+    from .. import cellstate
+    chk.rule("C02-STATE", "every byte poll that follows a delimiter finds the per-packet framing state (index, escape flag, CRC accumulator, oversize flag) "
+                          "at its initial values: neither a discarded packet nor a stray escape or delimiter leaks state into the next packet")
+    pollids = {i.id for i in polls}
+    # cells: non-escaping integer locals with a constant initialisation in the entry block that are loop carried across a poll
+    cells = {}
+    init = {}
+    for a in asm.all_insts():
+        if a.op != "alloca" or not str(a.get("aty", "")).startswith("i"):
+            continue
+        uses_ok = True
+        for u in asm.all_insts():
+            for k_, v_ in u.d.items():
+                if k_ in ("loc",):
+                    continue
+                vs = v_ if isinstance(v_, list) else [v_]
+                for v in vs:
+                    if isinstance(v, dict) and v.get("k") == "inst" and v.get("id") == a.id:
+                        if not ((u.op == "load" and k_ == "ptr") or (u.op == "store" and k_ == "ptr") or (u.op == "call" and (u.callee or "").startswith("llvm.dbg"))):
+                            uses_ok = False
+        if not uses_ok:
+            continue
+        # the initialisation: a store of a constant that dominates every other access of the local
+        acc = [x for x in asm.all_insts() if x.op in ("load", "store") and x["ptr"].get("k") == "inst" and x["ptr"]["id"] == a.id]
+        first = None
+        for s_ in acc:
+            if s_.op == "store" and rules.const_of(asm, s_["val"]) is not None and all(asm.dominates(s_, x) for x in acc):
+                first = rules.const_of(asm, s_["val"])
+                break
+        if first is None:
+            continue
+        carried = False
+        for pl in polls:
+            def is_load(x, a=a):
+                return x.op == "load" and x["ptr"].get("k") == "inst" and x["ptr"]["id"] == a.id
+            def is_store(x, a=a):
+                return x.op == "store" and x["ptr"].get("k") == "inst" and x["ptr"]["id"] == a.id
+            if rules._exists_path_plain(asm, pl, is_load, is_store, False, 200000):
+                carried = True
+                break
+        if carried:
+            cells[a.id] = {"bool": asm.is_bool_alloca(a), "name": a.get("var") or "local%d" % a.id}
+            init[a.id] = first & 1 if asm.is_bool_alloca(a) else first
+    if len(cells) < 2:
+        chk.abstain("C02-STATE", "fewer than two loop-carried framing locals found in %s" % asm.name, asm.name)
+        return
+    # delimiter edges
+    dedges = set()
+    for ci in cmps.get(MAGIC, []):
+        if ci.op == "icmp":
+            for b in asm.blocks:
+                t = b.term
+                if t.op == "br" and "cond" in t.d and t["t"] != t.get("f"):
+                    for truth in (True, False):
+                        if _is_cmp(asm, t["cond"], ci, truth):
+                            dedges.add((b.id, t["t"] if truth else t["f"]))
+        elif ci.op == "switch":
+            for cv, cl in ci["cases"]:
+                if cv & 0xff == MAGIC:
+                    dedges.add((ci.bb.id, cl))
+    if not dedges:
+        chk.abstain("C02-STATE", "delimiter edge not found in %s" % asm.name, asm.name)
+        return
+    cell_allocas = set(cells)
+    def cond_on_other_local(t):
+        """the branch tests a local that is not a tracked cell and not the polled byte / its success flag"""
+        for l in _cond_loads(asm, t["cond"]) if "cond" in t.d else []:
+            if l["ptr"].get("k") == "inst":
+                x = asm.insts[l["ptr"]["id"]]
+                if x.op == "alloca" and x.id not in cell_allocas:
+                    return True
+        return False
+    W = cellstate.CellWalk(asm, cells)
+    bad = {}
+    opaque = {}
+
+    def on_inst(inst, st, key):
+        fresh, opq = st[2]
+        if inst.id in pollids and fresh:
+            for c in W.order:
+                v = st[0][W.pos[c]]
+                if v != ("c", init[c]):
+                    (opaque if opq else bad).setdefault(c, (inst, v, key))
+            return (False, False)
+        if fresh and inst.op in ("br", "switch") and "cond" in inst.d and cond_on_other_local(inst):
+            return (fresh, True)
+        if inst.op == "ret":
+            return (False, False)
+        return None
+
+    def on_edge(b, s, st):
+        if (b.id, s) in dedges:
+            return (True, False)
+        return None
+    try:
+        n = W.run((True, False), on_inst, on_edge)
+    except cellstate.Truncated:
+        chk.abstain("C02-STATE", "state exploration of %s truncated" % asm.name, asm.name)
+        return
+    chk.extra["framing_state"] = {"cells": {cells[c]["name"]: init[c] for c in W.order}, "explored_states": n, "delimiter_edges": len(dedges)}
+    for c in W.order:
+        nm = cells[c]["name"]
+        if c in bad:
+            inst, v, key = bad[c]
+            lines = []
+            k = key
+            for _ in range(40):
+                if k is None:
+                    break
+                lines.append(asm.bmap[k[0]].insts[0].line)
+                k = W.parent.get(k)
+            what = "holds %d" % v[1] if v != cellstate.T and v[0] == "c" else ("is non-zero" if v != cellstate.T else "still holds a value computed for the previous frame")
+            chk.violation("C02-STATE", asm.name, "state:%s" % nm, inst.loc(),
+                          "the byte poll at line %d can follow a delimiter while '%s' %s (initial value %d; blocks at lines %s): the next packet is decoded with state left over from "
+                          "the frame before it" % (inst.line, nm, what, init[c], " < ".join(str(x) for x in lines[:12] if x)))
+        elif c in opaque:
+            chk.abstain("C02-STATE", "'%s' not shown initial at a poll after a delimiter, but the path tests locals the analysis does not track" % nm, asm.name)
+        else:
+            chk.ok("C02-STATE", 1, {"cell": nm, "initial": init[c]})
+
+
+def _is_cmp(f, cond, cmp_inst, truth):
+    """the branch condition, holding with `truth`, means the comparison `cmp_inst` found equality"""
+    pol = truth
+    o = cond
+    for _ in range(8):
+        if o.get("k") != "inst":
+            return False
+        i = f.insts[o["id"]]
+        if i.id == cmp_inst.id:
+            return pol == (i["pred"] == "eq")
+        if i.op in ("zext", "sext", "trunc"):
+            o = i["a"]
+        elif i.op == "xor" and rules.const_of(f, i["b"]) in (1, -1):
+            pol = not pol
+            o = i["a"]
+        elif i.op == "icmp" and i["pred"] in ("eq", "ne") and rules.const_of(f, i["b"]) == 0:
+            if i["pred"] == "eq":
+                pol = not pol
+            o = i["a"]
+        else:
+            return False
+    return False
 
 
 def _progress(chk, w, E, split):
